@@ -361,4 +361,7 @@ func genC14(g *Gen) {
 			slice(ws, from, to, "slice-rand")
 		}
 	}
+
+	genC14Widen(g) // harness/c14w.go: mask tables, Getw on any bitmap, split + Join, ToArray(Slice)
+	genC14Fmt(g)   // harness/c14f.go: bitmap.Fmt
 }
